@@ -92,8 +92,50 @@ pub fn record(args: &Args) {
     // (c) derived quantities observable through the public API
     derive(&mut out, &mut rng, if args.thorough() { 4000 } else { 400 });
     derive_seeded(&mut out, &mut rng, if args.thorough() { 60 } else { 12 });
+    derive_floats(&mut out, &mut rng);
     let (runs, events) = out.finish();
     println!("{}", json!({"runs":runs,"events":events}));
+}
+
+/// Floating-point items (theta and CPC `update_f64` / `update_f32`): the hashed item is the canonical bit
+/// pattern of the value as a double - one zero (-0.0 is +0.0), one NaN (0x7ff8000000000000), f32 widened -
+/// as Java's Double.doubleToLongBits gives it.
+fn derive_floats(out: &mut Shards, rng: &mut Rng) {
+    use datasketches::cpc::CpcSketch;
+    use datasketches::theta::ThetaSketch;
+    out.next_run("hash-derive-floats");
+    let canon = |v: f64| -> u64 { if v.is_nan() { 0x7ff8_0000_0000_0000 } else if v == 0.0 { 0 } else { v.to_bits() } };
+    let mut vals: Vec<f64> = vec![0.0, -0.0, 1.0, -1.5, f64::INFINITY, f64::NEG_INFINITY, f64::MIN_POSITIVE, 5e-324, f64::MAX,
+        f64::NAN, f64::from_bits(0x7ff0_0000_0000_0001), f64::from_bits(0xfff8_0000_0000_0000), f64::from_bits(0x7fff_ffff_ffff_ffff)];
+    for _ in 0..20 {
+        vals.push(f64::from_bits(rng.next()));
+    }
+    for &v in &vals {
+        let bits = canon(v);
+        let (h1, h2) = refhash::murmur3_x64_128(&bits.to_le_bytes(), 9001);
+        let want_rc = [(h1 & 2047) as u32, h2.leading_zeros().min(63)];
+        let mut sk = CpcSketch::new(11);
+        sk.update_f64(v);
+        let pair = sk.verif_state().table.first().copied().unwrap_or(u32::MAX);
+        out.ev(json!({"op":"Derive","what":"cpc_rowcol_f64","kind":format!("{:016x}", v.to_bits()),"lib":[pair >> 6, pair & 63],"ref":want_rc}));
+        let mut th = ThetaSketch::builder().build();
+        th.update_f64(v);
+        out.ev(json!({"op":"Derive","what":"theta_hash_f64","kind":format!("{:016x}", v.to_bits()),
+            "lib":hex64(th.iter().next().unwrap_or(0)),"ref":hex64(h1 >> 1)}));
+        // the f32 entry points widen first
+        let f = v as f32;
+        let bits32 = canon(f as f64);
+        let (g1, g2) = refhash::murmur3_x64_128(&bits32.to_le_bytes(), 9001);
+        let mut sk = CpcSketch::new(11);
+        sk.update_f32(f);
+        let pair = sk.verif_state().table.first().copied().unwrap_or(u32::MAX);
+        out.ev(json!({"op":"Derive","what":"cpc_rowcol_f32","kind":format!("{:08x}", f.to_bits()),"lib":[pair >> 6, pair & 63],
+            "ref":[(g1 & 2047) as u32, g2.leading_zeros().min(63)]}));
+        let mut th = ThetaSketch::builder().build();
+        th.update_f32(f);
+        out.ev(json!({"op":"Derive","what":"theta_hash_f32","kind":format!("{:08x}", f.to_bits()),
+            "lib":hex64(th.iter().next().unwrap_or(0)),"ref":hex64(g1 >> 1)}));
+    }
 }
 
 /// Derivations under a configured seed: the row / column a CPC sketch and the hash a theta sketch derive for
